@@ -37,12 +37,21 @@ structure Service where
   methods : List Method
 deriving Repr
 
+/-- an attribute of result type that fixes the view it is rendered with (`Attribute("a", RT, func() { View("v") })`,
+    on the declaration or inside a view): the view named and the views the target type defines -/
+structure AttrView where
+  owner : String
+  view : String
+  views : List String
+deriving Repr
+
 structure Design where
   schemes : List String
   errors : List String
   httpErrors : List String
   apiSchemes : List String
   services : List Service
+  attrViews : List AttrView := []
 deriving Repr
 
 /-- a reference that does not resolve: what kind, where, which name -/
@@ -73,10 +82,14 @@ def danglingService (d : Design) (s : Service) : List Dangling :=
   missingFrom "scheme" s.name s.schemes d.schemes ++
   s.methods.flatMap (danglingMethod d s)
 
+def danglingAttrView (av : AttrView) : List Dangling :=
+  if av.views.contains av.view then [] else [⟨"attribute-view", av.owner, av.view⟩]
+
 def dangling (d : Design) : List Dangling :=
   missingFrom "error-response" "API" d.httpErrors d.errors ++
   missingFrom "scheme" "API" d.apiSchemes d.schemes ++
-  d.services.flatMap (danglingService d)
+  d.services.flatMap (danglingService d) ++
+  d.attrViews.flatMap danglingAttrView
 
 /-- the acceptance condition of the reference checks -/
 def closed (d : Design) : Bool := (dangling d).isEmpty
